@@ -1,6 +1,7 @@
 SPECIFICATION DSpec
 INVARIANT DamageInWindow
 CONSTANTS
+  NeedPred = FALSE
   MaxD = 0
   Level2 = "core"
 CHECK_DEADLOCK FALSE
